@@ -528,3 +528,80 @@ def run(ctx):
     missing = [p for p in need if ctx.paths.get(p, 0) == 0]
     if missing:
         raise Infra(f'model paths without input: {missing}')
+    # ======== "sitecov" input stream - self-contained, implemented at the end of this file; keep this call last ========
+    _sitecov_tail(ctx)
+
+
+# ================================================================================================
+# "sitecov" input stream (harness/sitecov.py, DESIGN 3c): every comparison of the CURRENT source of move_dist_t3 and
+# rate_t3 is driven to lhs == rhs, +-1 and both outcomes; the inputs found are pushed through `run` itself (same real
+# code, driver comparison, oracle and ctx.count - additionally counted under the path 'sitecov').
+# Self-contained block at the end of the file on purpose (the body of `run` is untouched except for its last line).
+# ================================================================================================
+def _sitecov_domain(c):
+    T, rate, accel, jerk = c[:4]
+    if not all(type(x) is int for x in (T, rate, accel, jerk)):
+        return False
+    if len(c) > 4 and not (c[4] == 'clear' or (type(c[4]) is int and 0 <= c[4] < M31)):
+        return False
+    return firmware_valid(T, rate, accel, jerk)
+
+
+def _sitecov_rerun(ctx, cases, prune_tag):
+    """push `cases` through run() itself: gen_cases is replaced for the duration of the nested call"""
+    g = globals()
+    orig = g['gen_cases']
+    g['gen_cases'] = lambda _ctx: list(cases)
+    n_notes, n_ood = len(ctx.notes), len(ctx.out_of_domain)
+    ctx._in_sitecov = True
+    try:
+        g['run'](ctx)
+    finally:
+        g['gen_cases'] = orig
+        ctx._in_sitecov = False
+    del ctx.notes[n_notes:]                       # the nested pass repeats the closing notes of the module
+    ctx.out_of_domain[n_ood:] = [o for o in ctx.out_of_domain[n_ood:] if prune_tag not in str(o)]
+
+
+def _sitecov_tail(ctx):
+    if getattr(ctx, '_in_sitecov', False) or getattr(ctx, 'replay', None) or os.environ.get('SITECOV_OFF'):
+        return
+    from . import sitecov
+    from plotink import ebb_calc
+    rng = ctx.rng
+    # seeds: a sample of this module's own generated in-domain inputs
+    pool = [gen_random(rng) for _ in range(400)]
+    if not os.environ.get('SITECOV_ONLY'):
+        pool += [gen_extreme(rng) for _ in range(150)] + gen_clear_paths(rng) + gen_snap(rng)
+    pool = [c for c in pool if firmware_valid(*c)]
+    seeds4 = rng.sample(pool, min(len(pool), 250))
+    seeds5 = [c + (rng.choice(['clear', 'clear', 0, M31 - 1, rng.randint(0, M31 - 1)]),) for c in seeds4]
+    saved = mpmath.mp.dps
+    sitecov.stream(ctx, 'move_dist_t3', ebb_calc.move_dist_t3, seeds5, rerun=lambda cs: _sitecov_rerun(ctx, cs, 'T = 0 is outside'),
+                   moves=sitecov.Moves(domain=_sitecov_domain, lo={0: 1, 4: 0}, hi={0: 2 ** 32, 4: M31 - 1}), budget=3000)
+    sitecov.stream(ctx, 'rate_t3', ebb_calc.rate_t3, seeds4, rerun=lambda cs: _sitecov_rerun(ctx, cs, 'T = 0 is outside'),
+                   to_case=lambda a: a + (rng.choice(['clear', 0, M31 - 1]),),
+                   moves=sitecov.Moves(domain=_sitecov_domain, lo={0: 1}, hi={0: 2 ** 32}), budget=600)
+    mpmath.mp.dps = saved
+
+
+if os.environ.get('SITECOV_ONLY'):
+    # EXPERIMENT ONLY (measures what the sitecov stream finds on its own): the structured generators, the small box and
+    # the corpus are disabled - inputs = the random family + the sitecov stream; the path-coverage requirement, which
+    # the random family alone does not meet, becomes a note.
+    _full_run = run
+
+    def gen_cases(ctx):       # noqa: F811
+        rng = ctx.rng
+        return [gen_random(rng) + (rng.choice(['clear', 'clear', 'clear', 0, M31 - 1, rng.randint(0, M31 - 1)]),)
+                for _ in range(ctx.n(3000))]
+
+    def run(ctx):             # noqa: F811
+        try:
+            _full_run(ctx)
+        except Infra as ex:
+            if 'paths without input' not in str(ex):
+                raise
+            if not getattr(ctx, '_in_sitecov', False):
+                ctx.notes.append('SITECOV_ONLY: ' + str(ex))
+                _sitecov_tail(ctx)
